@@ -136,6 +136,8 @@ class StepLog:
         self.snaps = []
         self.identity = []   # per cycle: ids of agent objects in the population
         self.keep_snaps = True
+        self.init_snap = None
+        self.init_identity = None
 
 
 _LOG = StepLog()
@@ -150,25 +152,39 @@ def _wrapped_step(self):
         _LOG.identity.append([id(a) for a in self._population])
 
 
+def _wrapped_after_init(self):
+    # entered right after optimize() recorded generation 0
+    if _LOG.keep_snaps and _LOG.init_snap is None:   # some algorithms call it again from inside a cycle
+        _LOG.init_snap = plain_agents(self._population)
+        _LOG.init_identity = [id(a) for a in self._population]
+    _ORIG_AFTER[type(self)](self)
+
+
+_ORIG_AFTER = {}
+
+
 @contextlib.contextmanager
 def instrumented(cls):
-    if "optimization_step" in cls.__dict__:
-        owner = cls
-    else:
-        owner = next(k for k in cls.__mro__ if "optimization_step" in k.__dict__)
+    owner = next(k for k in cls.__mro__ if "optimization_step" in k.__dict__)
     orig = owner.__dict__["optimization_step"]
+    owner_a = next(k for k in cls.__mro__ if "after_initialization" in k.__dict__)
+    orig_a = owner_a.__dict__["after_initialization"]
     _ORIG[cls] = orig
+    _ORIG_AFTER[cls] = orig_a
     owner.optimization_step = _wrapped_step
+    owner_a.after_initialization = _wrapped_after_init
     try:
         yield
     finally:
         owner.optimization_step = orig
+        owner_a.after_initialization = orig_a
         _ORIG.pop(cls, None)
+        _ORIG_AFTER.pop(cls, None)
 
 
 class Observation:
     __slots__ = ("spec", "outcome", "result", "exc", "exc_key", "exc_text", "steps", "snaps", "identity",
-                 "init_snap", "n_calls", "bad_calls", "on_bound", "cfg_before", "cfg_after", "task_before",
+                 "init_snap", "init_identity", "n_calls", "bad_calls", "on_bound", "cfg_before", "cfg_after", "task_before",
                  "task_after", "cfg_identity_same", "config", "task", "optimizer", "repaired", "stdout",
                  "log_args")
 
@@ -211,6 +227,7 @@ def run(spec, *, keep_snaps=True, snapshots_cfg=True, timeout=120, optimizer_obj
     REC.delay = delay
     REC.log_args = [] if log_args else None
     _LOG.steps, _LOG.snaps, _LOG.identity, _LOG.keep_snaps = 0, [], [], keep_snaps
+    _LOG.init_snap = _LOG.init_identity = None
     if snapshots_cfg:
         obs.cfg_before, obs.task_before = snapshot(cfg), snapshot(task)
     kwargs = {}
@@ -235,6 +252,7 @@ def run(spec, *, keep_snaps=True, snapshots_cfg=True, timeout=120, optimizer_obj
         obs.exc_text = "".join(traceback.format_exception_only(type(e), e)).strip()[:300]
     obs.stdout = buf.getvalue()[:2000]
     obs.steps, obs.snaps, obs.identity = _LOG.steps, _LOG.snaps, _LOG.identity
+    obs.init_snap, obs.init_identity = _LOG.init_snap, _LOG.init_identity
     obs.n_calls, obs.bad_calls, obs.on_bound = REC.n_calls, list(REC.bad), REC.on_bound
     obs.log_args = REC.log_args
     if isinstance(obs.exc, tasks.NonMemberArgument):
